@@ -32,7 +32,7 @@ FUNCS = {
     'rg': 'exact', 'com': 'exact', 'gyration': 'exact', 'inertia': 'exact', 'principal_moments': 'exact',
     'rg_masses': 'exact', 'cog': 'exact', 'asphericity': 'exact', 'acylindricity': 'exact', 'shape_anisotropy': 'exact',
     'nematic_order': 'exact', 'directors': 'exact', 'density': 'exact', 'dipole_moments': 'exact',
-    'lprmsd_groups': 'exact', 'lprmsd_ai': 'exact', 'superpose_self': 'exact', 'lprmsd_solute': 'exact',
+    'lprmsd_groups': 'exact', 'lprmsd_ai': 'exact', 'superpose_self': 'exact', 'lprmsd_solute': 'exact', 'sasa_radii': 'exact',
     # (no rmsd(t, t, k) variant: with the reference inside the target the reference frame is centred twice, which legitimately
     # moves the float32 result -- by 1e-7 in general and by the QCP's 1e-4 square-root noise where the RMSD is zero)
     'angles_pbc': 'exact', 'dihedrals_pbc': 'exact', 'displacements_pbc': 'exact', 'distances_pbc_np': 'exact',
@@ -117,7 +117,7 @@ def generate(check, rng, tier, run_index):
         # block / buffer size (the small fragments above never leave the first block of anything).  Few functions, and the
         # frame-context clauses are judged on a sample of frames (first, middle, the last three, some random ones).
         bulk = ['contacts_closest', 'contacts_closest_heavy', 'contacts_sidechain', 'distances_opt', 'neighbors', 'rg', 'dssp',
-                'rmsd_par', 'com', 'kabsch_sander', 'drid', 'sasa_residue']
+                'rmsd_par', 'com', 'kabsch_sander', 'drid', 'sasa_residue', 'neighborlist', 'sasa_radii']
         funcs = rng.sample(bulk, 3)
         ops = []
         for f in funcs:
@@ -294,6 +294,8 @@ def evaluate(md, name, w, idx, fseed):
         out = t.xyz
     elif name == 'sasa_atom':
         out = md.shrake_rupley(t, mode='atom', n_sphere_points=120)
+    elif name == 'sasa_radii':
+        out = md.shrake_rupley(t, mode='atom', n_sphere_points=60, change_radii={'C': 0.2, 'N': 0.12})
     elif name == 'sasa_residue':
         out = md.shrake_rupley(t, mode='residue', n_sphere_points=60)
     elif name == 'dssp':
